@@ -17,6 +17,12 @@ CLAIMED = {
  "C04": ("Coq theorems: acceptance rule (downward always; upward iff (v.u)^2/(2 sum u_i^2/m_i) > gap), momentum change m_i(v'_i-v_i)=s u_i along the direction only, the selected root has the least modulus among all energy-conserving kicks, rejected hop untouched, and for the event-emitting loop over any number of steps: changes of the active column = hop events (same index/from/to), one frustrated event per rejection, no others. Hop level runs in binary64 against the four hopping classes; trajectory level replays the observed hopper decisions of real FSSH/cumulative/A-FSSH runs (2-, 3-, 8-state models, both trace back-ends) through the Coq event model and compares with the active column and the event log.",
          "trusts: Coq kernel/vm_compute; real-number axioms; harness wrappers around hopper/hop_allowed; tolerance as C01",
          "Coq proof (nra/field; induction over the step list) on hand-written model + correspondence", "DESIGN.md §3 C04"),
+ "C03": ("Coq theorems on Model/Hopper.v for any number of states: g>=0 and g_kk=0; flux antisymmetry b_kn=-b_nk for Hermitian rho,W; the unclipped fluxes sum to -d rho_kk/dt of rho'=-i[W,rho]; the slot theorem (hop to n iff c_{n-1}<=zeta<c_n, slot length p_n, no hop iff zeta>=total) by induction over the probability list; never hops to itself; Poisson option total = 1-exp(-sum g) (exact on the closed branch, 1e-17*sum on the series branch) with unchanged ratios. Binary64 runs against surface_hopping/hopper with thresholds inside slots, exactly on boundaries (dyadic, compared exactly), one ulp either side. Uniformity of the random number is numpy's contract (oracle).",
+         "trusts: Coq kernel/vm_compute; real-number axioms (+classic through interval for the Poisson series bound); FloatFun.v; 2^-44 tolerance; knife-edge 2^-40 for non-dyadic thresholds",
+         "Coq proof (list induction, lra/ring) on hand-written model + float correspondence", "DESIGN.md §3 C03"),
+ "C09": ("Coq theorems on Model/Cumulative.v: the accumulation is 1-(1-a)exp(-G) (both code variants); for any rate sequence an attempt occurs exactly at the first step where 1-prod exp(-G_i) exceeds the threshold and at no earlier step, none without a crossing; after an attempt accumulation is 0 and the next threshold is the next user value, else the next generator number; runs compose (any number of hops); target by the slot rule on g_i/G; survival 1-acc_n = prod(1-total_i) equals that of Poisson FSSH. Binary64 runs against TrajectoryCum.hopper with a twin generator supplying the same random numbers, incl. exact-tie cases (acc == zeta must not attempt).",
+         "trusts: Coq kernel/vm_compute; real-number axioms; numpy Generator.choice = one uniform + searchsorted (checked per attempt); longdouble accumulation vs binary64 at 2^-40",
+         "Coq proof (induction over the step list) on hand-written model + correspondence", "DESIGN.md §3 C09"),
 }
 NOT_YET = "check not built yet in this commit (work in progress; see DESIGN.md §3 for the planned proof)"
 
